@@ -139,6 +139,8 @@ def corpus(tier):
             out.append((lab + "/cumul", ts + [cumul("c", 2), req("a", "c"), req("b", "c")], 3))
             out.append((lab + "/cumul+worker", ts + [cumul("c", 2), worker("w"), req("a", "c"), req("a", "w"), req("b", "c")], 3))
     out.append(("delay", [fixed("a", 3), fixed("b", 1), worker("w"), req("a", "w", delay_in=1, early_out=1), req("b", "w")], 4))
+    out.append(("delay-optional", [fixed("a", 3, optional=True), fixed("b", 1), worker("w"), req("a", "w", delay_in=2), req("b", "w")], 4))
+    out.append(("delay-optional2", [fixed("b", 1), fixed("a", 3, optional=True), worker("w"), req("a", "w", delay_in=3, early_out=0), req("b", "w")], 4))
     out.append(("delay2", [var("a", min_duration=2, max_duration=3), worker("w"), req("a", "w", early_out=1)], 4))
     out.append(("dynamic", [fixed("a", 2), fixed("b", 1), worker("w"), worker("v"), req("a", "v"), req("a", "w", dynamic=True), req("b", "w")], 3))
     out.append(("cumul3", [fixed("a", 2), fixed("b", 2), fixed("c", 1), cumul("k", 2), req("a", "k"), req("b", "k"), req("c", "k")], 3))
